@@ -112,8 +112,8 @@ pub fn run_match(id: usize, a: &AbsGraph, enc: usize, r: &mut Rng, out: &mut Out
         2 => { macro_rules! go { ($t:ty) => {{ let g = build_stable::<$t, u32>(a, r); run_m!(&g, |e| e.id().index(), g.edge_count(), g.edge_bound(), id, enc, out) }}; } ty!(go, Directed, Undirected) }
         3 => { macro_rules! go { ($t:ty) => {{ let g = build_graphmap::<$t>(a, r); run_m!(&g, |e| { let (s, t) = e.id(); g.all_edges().position(|(x, y, _)| (x, y) == (s, t) || (!a.directed && (x, y) == (t, s))).unwrap_or(9999) }, g.edge_count(), EdgeIndexable::edge_bound(&g), id, enc, out) }}; } ty!(go, Directed, Undirected) }
         4 => { macro_rules! go { ($t:ty) => {{ let g = build_csr::<$t, u32>(a, r); run_m!(&g, |e| e.id(), EdgeCount::edge_count(&g), 0, id, enc, out) }}; } ty!(go, Directed, Undirected) }
-        5 => { let g = build_list::<u32>(a, r); run_m!(&g, |_e| 0, EdgeCount::edge_count(&g), 0, id, enc, out) }
-        _ => { macro_rules! go { ($t:ty) => {{ let g = build_matrix::<$t, u16>(a, r); run_m!(&g, |_e| 0, g.edge_count(), 0, id, enc, out) }}; } ty!(go, Directed, Undirected) }
+        5 => { let g = build_list::<u32>(a, r); run_m!(&g, |e| petgraph::visit::IntoEdgeReferences::edge_references(&g).position(|x| x.id() == e.id()).unwrap_or(9999), EdgeCount::edge_count(&g), 0, id, enc, out) }
+        _ => { macro_rules! go { ($t:ty) => {{ let g = build_matrix::<$t, u16>(a, r); run_m!(&g, |e| e.id().0.index() * 1000 + e.id().1.index(), g.edge_count(), 0, id, enc, out) }}; } ty!(go, Directed, Undirected) }
     }
     out.stat(&format!("match_enc_{}", enc));
 }
@@ -160,7 +160,7 @@ pub fn gen(seed: u64, n: usize, out: &mut Out) {
                 out.stat("kind_large_matching");
             }
             let encs = [0usize, 2, 3, 4, 5, 6];
-            let mut enc = if large { [0usize, 2][r.below(2)] } else { encs[r.below(6)] };
+            let mut enc = if large { [0usize, 2, 6][r.below(3)] } else { encs[r.below(6)] };
             if !enc_ok(enc, &a, false) { enc = if r.chance(50) { 0 } else { 2 }; }
             out.stat(if a.directed { "match_directed" } else { "match_undirected" });
             run_match(id, &a, enc, &mut r, out);
